@@ -33,7 +33,13 @@ def parse_template(path):
     i = 0
     while i < len(lines):
         s = lines[i].strip()
-        if s.startswith('//@features'):
+        if s.startswith('//@include '):
+            inc = os.path.join(os.path.dirname(path), s.split()[1] + '.k.rs')
+            _, iattrs, iapp, _ = parse_template(inc)
+            attrs += iattrs
+            appends += iapp
+            i += 1
+        elif s.startswith('//@features'):
             feats = s.split(None, 1)[1].strip()
             i += 1
         elif s.startswith('//@attrs '):
